@@ -169,7 +169,7 @@ def check_multiplier(run):
             fails.setdefault(k, []).append((c, d))
         # ---- correspondence term ----
         if kind == "div":
-            n = min(steps, 2 * m + 2)
+            n = min(steps, 2 * m + 2 if m <= 64 else m + 2)      # at least one whole period and the next emission
         else:
             n = steps
         ln, sp = sparse_prefix(r, n)
@@ -380,11 +380,23 @@ class RefClock:
         if between is not None:
             self.dur = delta(between, self.tpb)
         ntd, mm = self.dur, None
+        unit = self.a is None or self.a == self.b
         while True:
             diff = t - self.c0 - ntd
             mm = abs(diff) if mm is None else min(mm, abs(diff))
             if diff < 0:
                 return mm
+            if unit and diff >= 3 * self.dur:
+                # long catch-up with nothing happening: jump (the comparisons skipped are further from 0 than the last ones)
+                skip = int(diff // self.dur) - 2
+                nxt = min((i for i in self.cb if i >= self.total), default=None)
+                if nxt is not None:
+                    skip = min(skip, nxt - self.total)
+                if skip > 0:
+                    self.it += skip
+                    self.total += skip
+                    self.c0 += skip * self.dur
+                    continue
             if self.a is None:
                 k = 1
             else:
@@ -434,7 +446,7 @@ def gen_clock_case(rng, kind):
     ref = RefClock(t0, tempo, tpb, a, b, cb)
     ref.step(t0)
     n_read = rng.randint(25, 110)
-    big_stalls = 0
+    budget = 12000 if rng.random() < 0.3 else 1200       # bound on the ticks of one script (keeps the Coq side fast)
     t = t0
     for j in range(1, n_read + 1):
         d = ref.dur
@@ -454,7 +466,7 @@ def gen_clock_case(rng, kind):
                 k = rng.randint(1, 6)
                 adv = max(Fraction(0), ref.c0 + k * d - t)
             else:
-                adv = d * rng.randint(10, 2000) + q * rng.randint(0, 3)
+                adv = d * rng.randint(10, max(10, min(2000, budget - ref.total))) + q * rng.randint(0, 3)
         else:
             base = Fraction(1, 10 ** 4)
             if u < 0.08:
@@ -464,9 +476,8 @@ def gen_clock_case(rng, kind):
             elif u < 0.93:
                 adv = base + d * Fraction(rng.randint(1000, 60000), 1000)           # stall of 1..60 ticks
             else:
-                hi = 4.0 if big_stalls < 1 else 2.5
-                big_stalls += 1
-                adv = base + d * Fraction(int(10 ** rng.uniform(1.0, hi) * 1000), 1000)   # 10 .. 10^4 tick lengths
+                room = max(10.0, min(10000.0, budget - ref.total))
+                adv = base + d * Fraction(int(10 ** rng.uniform(1.0, math.log10(room)) * 1000), 1000)   # 10 .. 10^4 tick lengths
             adv = Fraction(int(adv * GRID), GRID)
         t1 = t + adv
         ok = False
@@ -651,14 +662,21 @@ def check_clock(run):
         rds = "[" + "; ".join("(%s, %s)" % (zlit(U(t)), "None" if j not in c["between"] else "(Some %s)" % zlit(U(delta(c["between"][j], tpb))))
                               for j, t in enumerate(ts)) + "]"
         out = None if c["target"] == "timeline" else c["target_rate"]
-        terms.append("clock_ok %s %s %s %s %s %s %s %s" % (
+        args = "%s %s %s %s %s %s %s %s" % (
             rlit(out), rlit(tpb), plist(sorted((i, U(delta(v, tpb))) for i, v in c["cb"].items())),
-            zlit(U(delta(c["tempo"], tpb))), zlit(U(ts[0])), rds, zlist(counts), zlit(code)))
+            zlit(U(delta(c["tempo"], tpb))), zlit(U(ts[0])), rds, zlist(counts), zlit(code))
+        # clock_ok_x = clock_ok (Props/C14.v C14_fast_variants_agree); the model with the round(pos, 8) arithmetic itself
+        # is evaluated on the scripts with few ticks
+        terms.append("clock_ok_x " + args)
         meta.append((c, verdict, counts))
+        if (counts[-1] if counts else 0) <= 400:
+            terms.append("clock_ok " + args)
+            meta.append((c, verdict, counts))
+            run.dist("clock.also-with-round8-model")
     run.sample({"clock_script": {k: v for k, v in clock_payload(cases[0]).items() if k != "readings"},
                 "first_readings": clock_payload(cases[0])["readings"][:5], "counts": res[0].get("counts", [])[:5]})
     t0 = time.time()
-    failing = run.coq_failing(HEADER, terms, chunk=3, jobs=14)
+    failing = run.coq_failing(HEADER, terms, chunk=6, jobs=14)
     run.cov["coq_seconds_clock"] = round(time.time() - t0, 1)
     run.cov["traces_validated_against_impl"] += len(terms) - len(failing)
     for i in failing:
